@@ -144,6 +144,10 @@ def operand_ty(fn, o):
     pl = (o.get("move") or o.get("copy")) if isinstance(o, dict) else None
     if pl is not None and not pl["p"]:
         return fn.locals[pl["l"]]["ty"]
+    # an element of a byte slice tested in place: `match self.src[i] { b'\n' | b'\r' => .. }`
+    if pl is not None and len(pl["p"]) == 2 and pl["p"][0] == "*" and isinstance(pl["p"][1], dict) and ("idx" in pl["p"][1] or "cidx" in pl["p"][1]) \
+            and fn.locals[pl["l"]]["ty"].replace(" ", "") in ("&[u8]", "&'_[u8]", "&'input[u8]"):
+        return "u8"
     return ""
 
 
@@ -173,14 +177,45 @@ def known_ascii_positions(fn, B, wblocks):
     return {collapse_memchr(x) for x in _known_ascii_positions(fn, B, wblocks)}
 
 
-def _known_ascii_positions(fn, B, wblocks):
+def _straight_to(fn, b, S):
+    """b reaches S through gotos only."""
+    seen = 0
+    while b != S and seen < 8:
+        if fn.blocks[b]["t"]["k"] != "goto":
+            return False
+        b = fn.blocks[b]["t"]["t"]
+        seen += 1
+    return b == S
+
+
+def _known_ascii_positions(fn, B, wblocks, _depth=0):
     """Position texts whose byte is known ASCII at block B (dominating constraints + all-ASCII disjunctions)."""
     known = set()
     for S, al in fn.constraints(B):
         subj = ascii_fact(fn, S, al)
         if subj and not stale(fn, S, B, wblocks, al):
             known |= {x for x in subj if x != "CONST"}
-    # disjunction: every edge that leads straight to B is an ASCII test of the same position
+    # a test whose outcome was first stored in a flag (`matches!(byte, b'\n' | b'\r')`, a named condition): the flag is true
+    # only on the blocks that set it true, so what is known there - on every one of them - is known here
+    for S, al in fn.constraints(B):
+        si = fn.switch_info(S)
+        if si["kind"] != "multi" or _depth > 3:
+            continue
+        defs = si.get("defs") or []
+        if not defs or not all(k_ != "t" and st_["rv"]["k"] == "use" and isinstance(st_["rv"]["a"], dict) and st_["rv"]["a"].get("int") in (0, 1) for (_b, k_, st_) in defs):
+            continue
+        truth = 1 if 0 not in al else 0
+        setters = [b_ for (b_, _k, st_) in defs if st_["rv"]["a"]["int"] == truth]
+        if not setters or stale(fn, S, B, wblocks, al) or any(b_ in wblocks for b_ in setters):
+            continue
+        # each setter runs straight into the test
+        if not all(fn.blocks[b_]["t"]["k"] == "goto" and _straight_to(fn, b_, S) for b_ in setters):
+            continue
+        common = None
+        for b_ in setters:
+            k_ = _known_ascii_positions(fn, b_, wblocks, _depth + 1)
+            common = k_ if common is None else common & k_
+        known |= common or set()
     dec = {}
     for S, lab in fn.deciding(B):
         dec.setdefault(S, []).append(lab)
@@ -1310,6 +1345,12 @@ def r12_checker_indexes_follow_a_length_test(ctx):
                 ctx.ok(key, fn.where(b), "the element is known to exist")
             else:
                 ctx.bad(key.rsplit("#", 1)[0] + "|unguarded", fn.where(b), "the checker reads `%s[%d]` on a path on which nothing says the list has that many elements (%s): a call with too few arguments - already reported, but checking goes on - makes the checker itself panic with an index out of bounds" % (arr, k, [(o, sh(x)[:20], sh(y)[:6]) for o, x, y, S in cmp_facts(fn, b)][:3]))
+    # the same read spelled with a checked accessor (`args.first()`, `args.get(k)`) cannot be out of range at all
+    for fn in sorted(ctx.lib.in_file("src/resolver.rs"), key=lambda f: (f.line, f.id)):
+        for c in fn.calls():
+            if (c.callee or "").split("::")[-1] in ("first", "get") and "slice" in (c.callee or "") and c.args and ".args" in sh(ne(fn.deep(c.args[0]))):
+                n += 1
+                ctx.ok("checker-index|%s|checked-accessor@%s" % (parent_fn(fn.id).split("::")[-1], (c.callee or "").split("::")[-1]), fn.where(c.block), "a checked accessor: no index to be out of range")
     ctx.floor("constant indexes into argument lists in the checker", n, 4)
 
 
